@@ -112,5 +112,67 @@ claim('C19', 'Lean theorems about the filter-chain model for every distance func
       'filter objects (re-using one filter object in two chains leaves a stale next_filter; out of scope).',
       'DESIGN.md §5 C19')
 
-for p in ['C02', 'C03', 'C04', 'C05', 'C07', 'C08', 'C16', 'C18']:
+claim('C03', 'Lean theorems for any interleaving and any per-message fragment permutation (slot projection lemma + one-slot block induction) + exhaustive small-schedule differential execution',
+      'C03_singles (single sentences delivered immediately at their own position), C03_no_mixing (what is delivered at '
+      'a slot\'s positions depends only on that slot\'s fragments), C03_delivery (a sequence of complete fragment sets '
+      'per slot, each any permutation of fragments 1..n, slot reuse included: nothing before the last fragment of a '
+      'set, then exactly one message assembled in fragment-number order), C03_assembled (payload/bits concatenated, '
+      'validity = conjunction), C03_incomplete, C03_no_index_error; about the reassembly core of both loops; '
+      'MAX_FRAG_CNT and both buffer sizes regenerated from source; tie by differential execution of IterMessages and '
+      'NMEAQueue on all interleavings x permutations of small configurations and random large schedules, compared '
+      'per input position, and against expected deliveries computed from the construction of the schedule.',
+      FLOAT_NOTE + 'Quantifier as in the property: complete fragment sets, in-flight messages in distinct slots.',
+      'DESIGN.md §5 C03')
+
+claim('C04', 'Lean theorem: one-shot decoding of ANY carrier of a payload equals decoding the payload bits (parse-after-render inverse, stable-sort canonical form, de-armoring distributes over fragments) + differential execution over carrier variations',
+      'C04_is_payload_decode: for every armored payload and every carrier (any talker/type/channel/sequence id, any '
+      'cut into fragments, any hand-over order, trailing CR/LF/blanks, leading tag blocks) decode() of the model equals '
+      'decoding the payload bits; C04_carrier_independent; C04_swap (decode(part2, part1) = decode(part1, part2)). Tie '
+      'to decode.py/messages.py by differential execution on structured payloads of all 35 layouts x seeded carrier '
+      'variations incl. str arguments.',
+      FLOAT_NOTE + 'str versus bytes input is exercised by the harness only (UTF-8 encoding of ASCII text).',
+      'DESIGN.md §5 C04')
+
+claim('C05', 'Lean theorems about the Except-modelled parse layer and reader loops for all byte strings and line sequences (case analysis of every raising primitive under its handler; buffer-bound invariant) + malformed-input matrix differential execution',
+      'C05_decode_contract (decode() of any byte strings returns a message or raises a library exception), '
+      'C05_factory (the factory raises only the three exceptions the readers catch), C05_readers_total (iterating a '
+      'stream reader or feeding an NMEAQueue never raises, with or without tag block queue), C05_bystanders (a '
+      'rejected line changes neither state nor output); converter totality, dispatcher leaves/raises and buffer '
+      'bounds decided on tables/constants regenerated from source; tie by differential execution of decode() and of '
+      'all reader front-ends on a field x sub-field x token matrix, truncations, byte flips and insertions of six '
+      'kinds of valid lines, comparing exception classes and deliveries.',
+      FLOAT_NOTE + 'Python exception behaviour of int(), decode(), >>, zfill, reduce, unpacking, indexing, datetime is '
+      'modelled (Py/Basic.lean and the sentence model); lines > 4096 bytes, int digit limits and MemoryError are '
+      'outside the modelled domain; int(str) on non-ASCII decimal digits / Unicode spaces inside tag blocks is not modelled.',
+      'DESIGN.md §5 C05')
+
+claim('C07', 'Lean theorems: stream loop = queue loop as functions; filtering front-ends drop only no-op lines; terminators irrelevant; one-shot assembly agrees with reader assembly + six-front-end differential execution',
+      'C07_iter_eq_queue (IterMessages and NMEAQueue: identical state, deliveries, tag-block-queue output at every '
+      'position, all line sequences), C07_bytestream (the Stream heuristic only drops lines the factory rejects, under '
+      'the documented domain), C07_length_filter, C07_terminators, C07_socket (with C06), C07_oneshot (decode() of the '
+      'parts has the payload, bits, validity and id of the sentence the readers assemble, hence decodes alike); tie '
+      'by feeding fixture files and generated mixes to IterMessages, ByteStream, BinaryIOStream, SocketStream '
+      '(random chunking), NMEAQueue and decode(), with and without tag block queue.',
+      FLOAT_NOTE + 'Lines with leading whitespace or a start delimiter other than $ ! \\ are the documented difference '
+      'between the iterator/queue and the Stream front-ends and are excluded (hypothesis of C07_bytestream).',
+      'DESIGN.md §5 C07')
+
+claim('C16', 'Lean theorems: create-then-parse round trip for all field subsets/orders/values and group triples (splitOn/intercalate inverse, decimal and hex rendering inverses), validity flag, ignored fields, sentence unchanged + differential execution',
+      'C16_roundtrip / C16_roundtrip_group (any non-empty selection of the text fields in any keyword order with '
+      'separator-free UTF-8 values, any group triple: the created block initialises, is valid with matching '
+      'checksums, every field parses back to its text, fields not given are None), C16_valid_iff, '
+      'C16_unknown_ignored, C16_sentence_unchanged (the factory returns for a tag-blocked line what it returns for the '
+      'bare line, with the tag block attached); FIELD_CODES regenerated from source and pinned by decide.',
+      FLOAT_NOTE + 'int(str) on non-ASCII digits/Unicode spaces is outside the model (ASCII group members and checksums).',
+      'DESIGN.md §5 C16')
+
+claim('C18', 'Lean theorems: pending-wrapper invariant along any stretch of non-delivering lines; every delivery takes the pending wrapper and clears it; queue = stream + differential execution over wrapper/delivery patterns',
+      'C18_pending (the pending wrapper is the latest valid wrapper line since the last delivery; invalid wrapper '
+      'lines leave it alone), C18_attach (a delivered message, single or assembled, carries exactly the pending '
+      'wrapper, which is then cleared: at most one message per wrapper, none without), C18_queue, C18_fields '
+      '(timestamp and station fields are those of the wrapper line; only calendar-valid dates).',
+      FLOAT_NOTE + 'datetime() validity is modelled by an explicit calendar (leap years, ranges).',
+      'DESIGN.md §5 C18')
+
+for p in ['C02', 'C08']:
     PENDING[p] = 'check under construction in this commit (model exists, theorems and harness not yet registered); will be claimed at proof level'
